@@ -723,6 +723,8 @@ class Evaluator:
             raise Unknown('the iteration order of a set')
         if v.kind == 'dict' and v.items is not None:
             return AV('list', items=tuple(kv.items[0] for kv in v.items))
+        if v.kind == 'str' and isinstance(v.val, str) and len(v.val) <= 20000:
+            return AV('list', items=tuple(const_av(ch) for ch in v.val))
         return v
 
     # ---- boxed containers: a dict / list with reference semantics (what a library hands out and the code under analysis aliases)
@@ -1413,6 +1415,16 @@ class Evaluator:
         if name == 'isinstance':
             v = self.ev(node.args[0], env)
             return const_av(any(is_instance(v, c) for c in self._class_names(node.args[1], env)))
+        if ast.unparse(f) in ('replace', 'dataclasses.replace') and len(node.args) == 1 and not (name is not None and name in env):
+            o_ = self.ev(node.args[0], env)
+            if o_.kind == 'obj' and isinstance(o_.val, tuple):
+                at_ = dict(self.obj_attrs(o_))
+                for k in node.keywords:
+                    if k.arg is None or k.arg not in at_:
+                        raise AbsRaise('TypeError', f'replace() got an unexpected field {k.arg}')
+                    at_[k.arg] = self.ev(k.value, env)
+                return self.new_obj(o_.val[2], at_)
+            raise Unknown('replace of a value that is not a modelled object')
         if name == 'issubclass' and len(node.args) == 2 and self.class_table:
             a_ = self.ev(node.args[0], env)
             if self.is_class_value(a_):
@@ -1432,6 +1444,15 @@ class Evaluator:
                 except ValueError:
                     raise AbsRaise('ValueError', f'int({v0.val!r})')
             return to_int(v0)
+        if name in ('ord', 'chr', 'hex', 'bin', 'oct', 'divmod', 'pow') and node.args and not node.keywords and name not in env:
+            vs_ = [self.ev(a, env) for a in node.args]
+            if all(v_.val is not None and not isinstance(v_.val, tuple) for v_ in vs_):
+                import builtins as _b
+                try:
+                    return self._from_python(getattr(_b, name)(*[v_.val for v_ in vs_]))
+                except (TypeError, ValueError, ZeroDivisionError, OverflowError) as e_:
+                    raise AbsRaise(type(e_).__name__, str(e_))
+            raise Unknown(f'{name} of a value without a concrete carrier')
         if name == 'repr' and len(node.args) == 1:
             v0 = self.ev(node.args[0], env)
             if v0.kind == 'none':
